@@ -1,3 +1,5 @@
+import Deltio.Lemmas.SysSub
+import Deltio.Lemmas.MapRefine
 import Deltio.Lemmas.Attach
 import Deltio.Lemmas.SysInv
 import Deltio.Model.System
@@ -324,5 +326,47 @@ theorem C10_lp_run (ls : List Label) : ∀ (s s' : State), Reachable (init true)
       exact specRun.cons (C10_lp_sim s s1 hr l hs) (ih s1 s' (Reachable.step hr hs) h)
 
 end P1slice
+
+/-! ### C10 as ONE refinement theorem: the system model refines the atomic-map specification
+
+`Spec` (`Lemmas/MapSpec.lean`) is the two maps and nothing else; `Spec.apply` is the statement of
+C10 read as a program: create succeeds exactly when the name is absent (else ALREADY_EXISTS), a
+subscription additionally needs its topic (NOT_FOUND) in the same project (INVALID_ARGUMENT) with
+nothing created otherwise; get / publish / pull / ack / modify / delete on an absent name answer
+NOT_FOUND; get and list report the name, topic, effective ack deadline and push configuration the
+subscription was created with (the topic reads `_deleted-topic_` once its topic is gone, for ever). -/
+
+/-- In every state satisfying the global invariant, every request answers what the specification
+    answers (status, and the full resource content for control-plane calls) and changes the two maps
+    exactly as the specification does. -/
+theorem C10_refines_map (sys : Sys) (h : SysInv sys) (r : Req) :
+    (sys.rpc r).1.abs = (sys.abs.apply r).1 ∧ classOf (sys.rpc r).2 = (sys.abs.apply r).2 :=
+  refines_all sys h r
+
+/-- Over ALL histories of requests, stream operations and time advances: the namespaces of the
+    reached state are those of the specification run, and the next request is answered as the
+    specification answers it there. Nothing but the requests themselves ever changes a namespace. -/
+theorem C10_refines_map_run (ops : List SysOp) (r : Req) :
+    (Sys.init.execOps ops).abs = (Spec.run {} ops) ∧
+    classOf ((Sys.init.execOps ops).rpc r).2 = ((Spec.run {} ops).apply r).2 := by
+  have ha : (Sys.init.execOps ops).abs = Spec.run {} ops := by
+    have := abs_execOps ops Sys.init SysInv_init
+    simpa [Sys.abs, Sys.init] using this
+  refine ⟨ha, ?_⟩
+  rw [← ha]
+  exact (refines_all _ (SysInv_all ops) r).2
+
+/-! non-vacuity: the specification distinguishes the cases (a second create is rejected, a
+    subscription on a deleted topic reports `_deleted-topic_`, a re-created topic does not adopt it) -/
+def specAfter (rs : List Req) : Spec := rs.foldl (fun s r => (s.apply r).1) {}
+
+example :
+    ((specAfter [.createTopic exT]).apply (.createTopic exT)).2 = .err .alreadyExists ∧
+    ((specAfter []).apply (.createSub exS1 exT 0 none)).2 = .err .notFound ∧
+    ((specAfter [.createTopic exT, .createSub exS1 exT 0 none]).apply (.createSub exS1 exT 0 none)).2 = .err .alreadyExists ∧
+    ((specAfter [.createTopic exT, .createSub exS1 exT 0 none, .deleteTopic exT, .createTopic exT]).apply (.getSub exS1)).2 =
+      .sub { name := exS1, topic := deletedTopicStr, ackSecs := 10, push := none } ∧
+    ((specAfter [.createTopic exT, .createSub exS1 exT 0 none, .deleteTopic exT, .createTopic exT]).apply
+      (.listTopicSubs exT 0 [])).2 = .names [] [] := by decide
 
 end Deltio
